@@ -20,6 +20,7 @@ type dmaJob struct {
 	lcdOff   bool
 	every    bool // restart at a fixed cycle `at` instead of random
 	at       int
+	alt      int // restarts alternate between page and this page (0: always the same page)
 }
 
 func dmaRun(j dmaJob) *trace.Scenario {
@@ -30,7 +31,7 @@ func dmaRun(j dmaJob) *trace.Scenario {
 	if rng.Intn(3) > 0 {
 		m.M.Write(0x0000, 0x0a) // cartridge RAM enabled (else A000-BFFF sources read FF)
 	}
-	sc := &trace.Scenario{ID: j.id, Reset: []any{j.seed, j.page, j.restarts, trace.B2I(j.mutate), trace.B2I(j.lcdOff), trace.B2I(j.every), j.at}}
+	sc := &trace.Scenario{ID: j.id, Reset: []any{j.seed, j.page, j.restarts, trace.B2I(j.mutate), trace.B2I(j.lcdOff), trace.B2I(j.every), j.at, j.alt}}
 	perr := machine.Try(func() {
 		base := j.page << 8
 		// randomise the source where it is writable
@@ -50,17 +51,31 @@ func dmaRun(j dmaJob) *trace.Scenario {
 				m.P.EndMachineCycle()
 			}
 		}
+		if j.alt != 0 {
+			for i := 0; i < 160; i++ {
+				m.M.Write(uint16(j.alt<<8+i), uint8(rng.Intn(256)))
+			}
+		}
+		cur := j.page
 		srcNow := func() []int {
 			s := make([]int, 160)
 			for i := range s {
-				s[i] = int(m.M.Read(uint16(base + i)))
+				s[i] = int(m.M.Read(uint16(cur<<8 + i)))
 			}
 			return s
 		}
+		nstart := 0
 		start := func() {
+			// a restart may name another page: the transfer under way is abandoned altogether
+			if j.alt != 0 && nstart%2 == 1 {
+				cur = j.alt
+			} else {
+				cur = j.page
+			}
+			nstart++
 			src := srcNow()
-			m.M.Write(0xff46, uint8(j.page))
-			sc.Ev = append(sc.Ev, []any{"dma", j.page, src})
+			m.M.Write(0xff46, uint8(cur))
+			sc.Ev = append(sc.Ev, []any{"dma", cur, src})
 		}
 		start()
 		restartsLeft := j.restarts
@@ -68,8 +83,8 @@ func dmaRun(j dmaJob) *trace.Scenario {
 		for t := 0; t < 340+200*j.restarts; t++ {
 			if j.mutate && sinceStart < 170 && rng.Intn(6) == 0 {
 				i := rng.Intn(160)
-				m.M.Write(uint16(base+i), uint8(rng.Intn(256)))
-				sc.Ev = append(sc.Ev, []any{"sw", i, int(m.M.Read(uint16(base + i)))})
+				m.M.Write(uint16(cur<<8+i), uint8(rng.Intn(256)))
+				sc.Ev = append(sc.Ev, []any{"sw", i, int(m.M.Read(uint16(cur<<8 + i)))})
 			}
 			if restartsLeft > 0 && ((j.every && sinceStart == j.at) || (!j.every && sinceStart > 0 && rng.Intn(90) == 0)) {
 				start()
@@ -110,7 +125,11 @@ func dmaMain(c *Ctx) {
 		}
 		for _, s := range scs {
 			r := s.Reset.([]any)
-			w.Put(dmaRun(dmaJob{s.ID, int64(trace.Int(r[0])), trace.Int(r[1]), trace.Int(r[2]), trace.Int(r[3]) == 1, trace.Int(r[4]) == 1, trace.Int(r[5]) == 1, trace.Int(r[6])}))
+			alt := 0
+			if len(r) > 7 {
+				alt = trace.Int(r[7])
+			}
+			w.Put(dmaRun(dmaJob{s.ID, int64(trace.Int(r[0])), trace.Int(r[1]), trace.Int(r[2]), trace.Int(r[3]) == 1, trace.Int(r[4]) == 1, trace.Int(r[5]) == 1, trace.Int(r[6]), alt}))
 		}
 		w.Close()
 		return
@@ -139,6 +158,10 @@ func dmaMain(c *Ctx) {
 	for _, p := range []int{0xc1, 0x40, 0xe5} {
 		for at := 1; at < 170; at += step {
 			add(dmaJob{page: p, restarts: 1, every: true, at: at, lcdOff: true, mutate: at%2 == 0 && p != 0x40})
+			if p != 0x40 && (at < 12 || at%3 == 0) {
+				// the same, restarted from a different page
+				add(dmaJob{page: p, alt: p + 1, restarts: 1 + at%2, every: true, at: at, lcdOff: at%4 != 0})
+			}
 		}
 	}
 	results := make([]*trace.Scenario, len(jobs))
